@@ -609,7 +609,7 @@ pub(crate) fn compile(typechecker: &TypeChecker, statements: &Vec<Statement>) ->
     let start = Var(typechecker
         .variables
         .iter()
-        .find(|x| &x.name == "start" && x.is_global)
+        .find(|x| &x.name == "start" && x.is_global && x.definition.file_id == 0)
         .unwrap()
         .id);
 
